@@ -83,7 +83,7 @@ class C11(P.Property):
         run = fe.Run(plan["seed"], knobs)
         out = dict(obs=[], cover={}, probes={})
         try:
-            with world.Watchdog(90):
+            with world.Watchdog(240):
                 try:
                     run.sim.run(self._scenario(run, plan, out, res.violations))
                 except (core.SimLimit, core.SimDeadlock) as e:
